@@ -23,6 +23,8 @@ type stty struct {
 	cb      func()
 	reads   int
 	errAt   int // the errAt-th Read (1-based) fails; 0 = never
+	errWith int // the errWith-th Read that returns data returns an error with it (io.Reader allows both); 0 = never
+	dataN   int
 	blocks  []wblock
 	log     []string
 	inWrite string
@@ -90,6 +92,10 @@ func (t *stty) Read(p []byte) (int, error) {
 	if len(t.in) > 0 {
 		n := copy(p, t.in[0])
 		t.in = t.in[1:]
+		t.dataN++
+		if t.errWith > 0 && t.dataN == t.errWith {
+			return n, errors.New("injected tty read error (with data)")
+		}
 		return n, nil
 	}
 	if t.closed {
@@ -161,7 +167,7 @@ func newRig(w, h int) *rig {
 			}
 			return 0
 		}
-		return uint64(len(t.in))<<40 | uint64(t.w)<<32 | uint64(t.h)<<24 | uint64(t.errAt)<<8 | b(t.drained)<<0 | b(t.closed)<<1 | b(t.started)<<2 | b(t.cb != nil)<<3
+		return uint64(len(t.in))<<40 | uint64(t.w)<<32 | uint64(t.h)<<24 | uint64(t.errAt)<<8 | uint64(t.errWith)<<12 | uint64(t.dataN)<<16 | b(t.drained)<<0 | b(t.closed)<<1 | b(t.started)<<2 | b(t.cb != nil)<<3
 	}
 	return r
 }
